@@ -487,3 +487,7 @@ End Session.
 (* the regenerated table says: unwinding never commits *)
 Lemma table_unwind_rolls_back : unwind_commits = false.
 Proof. vm_compute. reflexivity. Qed.
+
+(* the regenerated table says: no caller swallows the I/O error of a write *)
+Lemma table_no_swallow : write_errors_swallowed = false.
+Proof. vm_compute. reflexivity. Qed.
